@@ -892,7 +892,33 @@ impl<'a> Lifter<'a> {
                 }
                 let x = match &terms {
                     Some((tname, _)) => v(format!("rsum({tname}.len, {tname}.at)"), "real"),
-                    None => self.expr(&init.expr)?,
+                    None => match self.expr(&init.expr) {
+                        Ok(x) => x,
+                        Err(e) => {
+                            // L20: an iterator chain outside the supported forms, collected into a variable whose
+                            // type is known because it shadows an earlier binding: arbitrary value of that type.
+                            // A refutation that depends on it is only trusted with a replayed witness.
+                            let shadow = match &l.pat { syn::Pat::Ident(pi) => self.lookup(&pi.ident.to_string()), _ => None };
+                            let is_collect = matches!(&*init.expr, syn::Expr::MethodCall(m) if m.method == "collect");
+                            match (shadow, is_collect) {
+                                (Some(ty), true) if ty == "OArr" || ty == "RArr" => {
+                                    let var = match &l.pat { syn::Pat::Ident(pi) => pi.ident.to_string(), _ => unreachable!() };
+                                    let hname = format!("{}__havoc_{var}", self.fn_name);
+                                    let decl = format!(
+                                        "pub uninterp spec fn {hname}({}) -> {ty};",
+                                        self.params.iter().map(|(n, t)| format!("{n}: {t}")).collect::<Vec<_>>().join(", ")
+                                    );
+                                    if !self.havocs.contains(&decl) {
+                                        self.havocs.push(decl);
+                                    }
+                                    self.note("L20", l.span(), &format!("unsupported iterator chain collected into `{var}`: havoc'd ({e})"));
+                                    let plist: Vec<String> = self.params.iter().map(|(n, _)| n.clone()).collect();
+                                    v(format!("{hname}({})", plist.join(", ")), &ty)
+                                }
+                                _ => return Err(e),
+                            }
+                        }
+                    },
                 };
                 if let Some((tname, recv)) = terms {
                     // emit `{ let s__terms = ..; <the ordinary let for s and the rest> }`
